@@ -12,7 +12,8 @@ sample(...) of each are taken.  Modes:
   (burn-in, thinning) pairs; then seeded random H with 2..8 hyperedges of size 2..6 on <= 8 nodes with labels
   0..N-1, shifted integers or strings, weighted or not, possibly with isolated nodes.  u has one row per node of H (rows
   follow Hypergraph.get_mapping(), as the sampler does).  Hyperedges of size one are not generated (the statement
-  promises sizes >= 2 for the output, so they are not admissible in the input).
+  promises sizes >= 2 for the output, so they are not admissible in the input).  Plus hard community assignments (one-hot u)
+  with a diagonal w and an initial hypergraph containing a hyperedge across communities (Poisson parameter exactly zero).
 * "sequences": sample(deg_seq=..., dim_seq=...) with sum(deg_seq) = sum(size * count), >= 2 hyperedges, sizes 2..min(N,5);
   degree sequences realisable (degrees of a random hypergraph with these sizes), arbitrary, or concentrated on few nodes
   (not realisable); integer and float arrays; allow_rescaling False and True.  Whether the greedy construction matched
@@ -36,10 +37,10 @@ hyperedges containing the node.
 
 Known limits
 ------------
-* "No two sampled hyperedges coincided" is not observable through the public API; it is replaced by "the produced
-  hypergraph has exactly as many hyperedges as the conditioning", which also excludes the (documented as theoretically
-  impossible) removal of zero-weight hyperedges.  Under that premise the equalities follow from the inequalities plus
-  equal totals; they are still evaluated.
+* "No two sampled hyperedges coincided" is not observable through the public API; the driver wraps the instance's
+  `_mcmc_routine` generator and reads it off the raw configuration (all hyperedges pairwise distinct as node sets), so a
+  hyperedge dropped after the chain (zero weight) is a violation of the exact-degree clause.  If that routine is not
+  there the premise falls back to "the produced hypergraph has as many hyperedges as the conditioning".
 * Only the first 5 elements of each generated sequence are examined; burn-in / thinning only in {0, 1, 20}.
 * In modes model / deg only / dim only the sampler draws from a generator that its seed does not control on this tree
   (the embedded HyMMSBM gets no seed), so which of those cases raise differs from run to run; the driver's own choices are
@@ -81,6 +82,11 @@ def _params(np, cfg, N):
     K = cfg["K"]
     u = rng.random((N, K)) * cfg.get("scale", 1.0)
     u[rng.random((N, K)) < 0.2] = 0.0
+    if cfg.get("u") == "hard":
+        # hard assignments: node i belongs to community i mod K only; with a diagonal w a hyperedge joining nodes of different
+        # communities only has Poisson parameter exactly zero (the case the sampler's lower clip exists for)
+        u = np.zeros((N, K))
+        u[np.arange(N), np.arange(N) % K] = cfg.get("scale", 1.0)
     w = rng.random((K, K)) + 0.05
     w = np.triu(w) + np.triu(w, 1).T
     if cfg.get("w") == "diagonal":
@@ -130,7 +136,7 @@ def _snapshot(H):
 def _one_run(np, Hypergraph, Sampler, cfg):
     """Build one sampler, draw N_SAMPLES hypergraphs.  Returns dict(error=..., samples=[(edges, weights, weighted)], matching=..)."""
     mode = cfg["mode"]
-    out = dict(error=None, samples=[], matching=None, N=None, nodes=None, deg=None, dim=None, total=None)
+    out = dict(error=None, samples=[], raw_distinct=[], matching=None, N=None, nodes=None, deg=None, dim=None, total=None)
     H = None
     if mode == "initial":
         H = _build_initial(Hypergraph, cfg)
@@ -162,11 +168,22 @@ def _one_run(np, Hypergraph, Sampler, cfg):
     try:
         s = Sampler(u=u, w=w, max_hye_size=cfg.get("max_hye_size"), exact_dyadic_sampling=cfg.get("exact", True),
                     burn_in_steps=cfg["burn"], intermediate_steps=cfg["thin"], seed=cfg["seed"])
+        # "no two sampled hyperedges coincided" is a fact about the raw configuration the chain hands to sample(): observe it by
+        # wrapping the chain generator of this instance (falls back to counting hyperedges when the routine is not there)
+        raw = []
+        chain = getattr(s, "_mcmc_routine", None)
+        if callable(chain):
+            def tee(*a, **k):
+                for config in chain(*a, **k):
+                    raw.append([frozenset(h) for h in config])
+                    yield config
+            s._mcmc_routine = tee
         gen = s.sample(**kw)
         for k in range(N_SAMPLES):
             Hs = next(gen)
             edges, weights = _snapshot(Hs)
             out["samples"].append((edges, weights, bool(Hs.is_weighted())))
+            out["raw_distinct"].append((len(set(raw[k])) == len(raw[k])) if len(raw) > k else None)
             if k == 0:
                 out["matching"] = getattr(s, "matching_sequences", None)
     except Exception as e:  # noqa: BLE001 - any exception of the code under test is an observation
@@ -242,7 +259,8 @@ def _case(cfg):
             if cond_dim:
                 check(all(dim[d] <= r["dim"].get(d, 0) for d in dim), "no size exceeds its conditioned count",
                       expected=dict(r["dim"]), observed=dict(dim), extra=dict(ex, matching_sequences=r["matching"]))
-            if cond_deg and len(sets) == r["total"]:
+            rd = r["raw_distinct"][k] if k < len(r["raw_distinct"]) else None
+            if cond_deg and (rd if rd is not None else len(sets) == r["total"]):
                 check(all(deg.get(v, 0) == r["deg"].get(v, 0) for v in r["nodes"]),
                       "every node has exactly its conditioned degree when nothing coincided", expected=dict(r["deg"]),
                       observed=dict(deg), extra=ex)
@@ -311,6 +329,19 @@ def _plan(quick, seed):
         if R.random() < 0.5:
             base["weights"] = [R.randint(1, 5) for _ in es]
         emit(base, STEPS, 1 if quick else 2)
+    # ---- hard communities with a diagonal w: the initial hypergraph contains hyperedges whose Poisson parameter is exactly zero
+    for j in range(12 if quick else 120):
+        N = R.randint(4, 8)
+        K = R.randint(2, 3)
+        es = set()
+        for _ in range(R.randint(2, 6)):
+            d = R.randint(2, min(N, 4))
+            es.add(tuple(sorted(R.sample(range(N), d))))
+        a = R.randrange(N)
+        es.add(tuple(sorted((a, (a + 1) % N))))           # consecutive nodes: different communities (K >= 2)
+        es = [list(e) for e in sorted(es)]
+        emit(dict(mode="initial", edges=es, isolated=[], labels=R.choice(["id", "shift", "str"]), K=K, w="diagonal", u="hard",
+                  scale=R.choice([0.5, 1.0, 3.0])), [(0, 0), (0, 1), (1, 0), (20, 1)], 1)
     # ---- degree and size sequences with equal totals
     for j in range(45 if quick else 450):
         N = R.randint(2, 8) if j >= 4 else 2
@@ -380,7 +411,8 @@ def run(ctx):
              "nodes (labels 0..N-1 / shifted / strings, weighted or not, isolated nodes); sequences with equal totals: "
              "realisable / arbitrary / concentrated; model: four parameter scales x max_hye_size x exact_dyadic; one "
              "sequence only. A case is non-trivial if some produced hypergraph has at least two hyperedges.")
-    ctx.assume("'no two sampled hyperedges coincided' is observed as: the sample has as many hyperedges as the conditioning")
+    ctx.assume("'no two sampled hyperedges coincided' is observed on the raw configuration yielded by the instance's _mcmc_routine "
+               "(wrapped by the driver); fallback when that routine is absent: the sample has as many hyperedges as the conditioning")
     ctx.assume("matching_sequences (public attribute) is trusted to say whether the greedy construction matched")
     ctx.assume("degree of a node = number of produced hyperedges containing it; hyperedges compared as node sets")
     ctx.assume("numpy Generator / scipy.stats.poisson.ppf behave as documented (weights >= 1 from the truncated Poisson)")
